@@ -402,8 +402,8 @@ std::string
 gen_c06()
 {
 	std::ostringstream t;
-	int mode = *pbt::welem<int>({{3, 0}, {2, 1}, {2, 2}});
-	t << "cfg " << *pbt::range<int>(1, 1000000) << " " << mode << " " << *gen::element(10, 30, 60) << " " << *pbt::range<int>(1, 3) << " 600 0\n";
+	int mode = *pbt::welem<int>({{3, 0}, {2, 1}, {2, 2}, {2, 3}});
+	t << "cfg " << *pbt::range<int>(1, 1000000) << " " << mode << " " << (mode == 3 ? *gen::element(5, 20, 50) : *gen::element(10, 30, 60)) << " " << *pbt::range<int>(1, 3) << " " << (mode == 3 ? *gen::element(60, 150, 400) : 600) << " 0\n";
 	// transport behind each puller: mostly inproc, sometimes ipc / tcp
 	t << "trans";
 	for (int q = 0; q < NPULL; q++)
